@@ -125,7 +125,9 @@ def body(ctx, q):
         got[r["got"]] = got.get(r["got"], 0) + 1
     ctx.log("driver: %d behaviours, %d connections, outcomes %s, rotation=%s handler_visible=%s" % (len(behs), len(recs), got, meta[0]["rotation"], meta[0]["handler_visible"]))
     burst = [r for r in recs if r["beh"] >= len(behs)]
-    if len(recs) - len(burst) < len(exps) * 9 // 10:
+    if meta[0].get("stopped"):
+        ctx.log("driver stopped after a positively established 'blocked' / 'not closed' observation")
+    elif len(recs) - len(burst) < len(exps) * 9 // 10:
         raise vlib.Inconclusive("driver recorded %d connections of %d" % (len(recs), len(exps)))
     unobs = [r for r in recs if r["got"] == "unobserved" and not r["released"]]
     if len(unobs) > len(recs) // 5:
@@ -165,6 +167,13 @@ def body(ctx, q):
         ctx.notes.append("OBSERVATION (not judged) D1: %d requests with a declared body length of 4 on a fixed-size record were "
                          "answered with a success response as NtsKeServer.tla predicts (the surplus bytes are read as the next "
                          "record header)" % len(illok))
+    if meta[0].get("noalpn", "").startswith("success"):
+        ctx.notes.append("OBSERVATION (not judged): a TLS client that offers no ALPN protocol gets a %s; the handler does not look "
+                         "at ConnectionState().NegotiatedProtocol (RFC 8915 section 3 wants ntske/1 negotiated)" % meta[0]["noalpn"])
+    eomill = [r for r in recs if r["acc"] == "ill" and r["got"] == "unobserved"]
+    for nn in ctx.notes:
+        if nn.startswith("OBSERVATION"):
+            print("NOTE property=%s %s" % (ctx.pid, nn))
     ctx.cov.update(traces_validated_against_impl=nval, evaluations=len(recs), distinct_nontrivial=len({(r["acc"], r["end"], r["got"], r["k0"], r["k1"], len(r["cookies"])) for r in recs}),
                    outcomes=got, predicted=want, cookies_opened=ncook, success_responses=len(succ),
                    answered_while_another_connection_was_silent=sum(1 for r in succ if any(x["beh"] == r["beh"] and x["stalled"] for x in recs)),
